@@ -38,7 +38,7 @@ pub const CTORS: &[Ctor] = &[
 ];
 
 /// Names probed at every site: variables, template arguments, fields, defs, a defset, an undeclared name.
-pub const POOL: &[&str] = &["u", "w", "p", "q", "f", "g", "x", "y", "s", "bp", "zz"];
+pub const POOL: &[&str] = &["u", "w", "p", "q", "f", "g", "x", "y", "s", "bp", "zz", "bv"];
 
 pub const WRAPPERS: usize = 12;
 
@@ -103,6 +103,13 @@ impl Gen {
         if !in_multiclass {
             // a class with its own template arguments, an inherited and an own field, a body defvar
             let mut body = Vec::new();
+            body.push(BI::Field {
+                doc: vec![],
+                blank: false,
+                ty: Ty::List(Box::new(Ty::Int)),
+                name: self.fresh(),
+                init: Some(E::BForeach("bv".into(), Box::new(E::List(vec![int(1)])), Box::new(E::Bang("!add".into(), None, vec![id("bv"), int(1)])))),
+            });
             for n in POOL {
                 // a parent's template argument used in an heir is left undefined by the property
                 if *n == "bp" {
@@ -154,7 +161,17 @@ impl Gen {
         out.push(Item::Defm { name: Some(format!("m{tag}")), parents: vec![CRef::with("MM", vec![defm_arg])] });
     }
 
+    /// two statements whose `!foreach` variables end with the operator: `bv` is unbound afterwards and
+    /// `x` denotes the global def again
+    fn bang_variables(&mut self, in_multiclass: bool, out: &mut Vec<Item>) {
+        for v in ["bv", "x"] {
+            let e = E::BForeach(v.into(), Box::new(E::List(vec![int(1)])), Box::new(E::Bang("!add".into(), None, vec![id(v), int(1)])));
+            out.push(if in_multiclass { Item::Dump(e) } else { Item::Defvar { name: self.fresh(), value: e } });
+        }
+    }
+
     fn level(&mut self, path: &[Ctor], depth: usize, in_multiclass: bool, out: &mut Vec<Item>) {
+        self.bang_variables(in_multiclass, out);
         self.probes(in_multiclass, out);
         let Some((&c, rest)) = path.split_first() else {
             self.leaves(in_multiclass, depth, out);
@@ -271,7 +288,8 @@ fn prelude() -> Vec<Item> {
     ]
 }
 
-/// layout 0: one file; 1: the prelude lives in an included file; 2 / 3: as 0 / 1 with a forward declaration of the class.
+/// layout 0: one file; 1: the prelude lives in an included file; 2 / 3: as 0 / 1 with a forward declaration of the class;
+/// 4: a diamond (the prelude is included directly and through a second file).
 pub fn scope_program(path: &[Ctor], wrapper: usize, layout: usize) -> Program {
     let mut g = Gen { next: 0, wrapper, probes: 0 };
     // a global variable named like a template argument of the leaf class and of the multiclass
@@ -291,6 +309,17 @@ pub fn scope_program(path: &[Ctor], wrapper: usize, layout: usize) -> Program {
         all.extend(prelude());
         all.extend(items);
         Program { files: vec![("a.td".into(), all)] }
+    } else if layout == 4 {
+        // a diamond: the prelude is included directly and again through mid.td, which goes on
+        // declaring and using names after the repeated include
+        let mut root = vec![Item::Include("inc.td".into()), Item::Include("mid.td".into())];
+        root.extend(items);
+        let mid = vec![
+            Item::Include("inc.td".into()),
+            Item::Def { doc: vec![], blank: false, name: Some("midd".into()), parents: vec![CRef::with("Base", vec![int(2)])], body: None },
+            Item::Defvar { name: "midv".into(), value: E::Field(Box::new(id("midd")), "g".into()) },
+        ];
+        Program { files: vec![("a.td".into(), root), ("inc.td".into(), prelude()), ("mid.td".into(), mid)] }
     } else if layout == 3 {
         // forward declared in the root, defined in the included file
         let mut root = vec![forward(), Item::Include("inc.td".into())];
@@ -483,6 +512,36 @@ pub fn declaration_variants() -> Vec<Vec<Item>> {
             }
         }
     }
+    // fields and overrides whose values have no computable type (`!cond`, a bit of an integer) are
+    // members all the same
+    let untyped = || E::Cond(vec![(E::Bool(false), int(1)), (E::Bool(true), int(2))]);
+    out.push(vec![
+        base.clone(),
+        Item::Def {
+            doc: vec![],
+            blank: false,
+            name: Some("d".into()),
+            parents: vec![CRef::with("P", vec![int(1)])],
+            body: Some(vec![
+                field(Ty::Int, "before", Some(untyped()), &[], false),
+                BI::Let { name: "f".into(), value: untyped() },
+                BI::Let { name: "g".into(), value: E::Cond(vec![(E::Bool(true), E::List(vec![int(1)]))]) },
+                field(Ty::Bit, "after", Some(E::BitAt(Box::new(id("before")), 0)), &[], false),
+            ]),
+        },
+    ]);
+    out.push(vec![
+        base.clone(),
+        Item::Class {
+            doc: vec![],
+            blank: false,
+            name: "C".into(),
+            targs: vec![TArg { ty: Ty::Int, name: "t0".into(), default: Some(untyped()) }, TArg { ty: Ty::Int, name: "t1".into(), default: Some(int(1)) }],
+            parents: vec![CRef::with("P", vec![id("t0")])],
+            body: Some(vec![BI::Let { name: "f".into(), value: untyped() }, field(Ty::Int, "own", Some(id("t1")), &[], false)]),
+        },
+        Item::Def { doc: vec![], blank: false, name: Some("dc".into()), parents: vec![CRef::with("C", vec![int(1), int(2)])], body: None },
+    ]);
     // defsets: empty, with named and anonymous defs, with a class, nested
     let d = |n: &str| Item::Def { doc: vec![], blank: false, name: Some(n.into()), parents: vec![CRef::with("P", vec![int(1)])], body: None };
     let anon = Item::Def { doc: vec![], blank: false, name: None, parents: vec![CRef::with("P", vec![int(2)])], body: None };
